@@ -301,8 +301,17 @@ def c_mad(xs, ws, s):
     if len(y) != len(xs) or isbad(y):
         p.add('shape', tag + ': wrong length or non-finite entries for a defined operation')
         return 'bad', p
+    # mystic's weighted median is an order statistic chosen by a stable sort: two deviations that are
+    # exactly tied in the input but come out of the rescaling one ulp apart change order, and with it the
+    # statistic itself.  Such inputs sit on a discontinuity of the statistic ("reach their targets" is then
+    # undefined to rounding): counted, not judged.
+    med_y = float(mm.median(y, ws))
+    dev = sorted(abs(float(v) - med_y) for v in y)
+    scale = max(dev) or 1.0
+    if any(a != b and abs(a - b) <= 1e-9 * scale for a, b in zip(dev, dev[1:])):
+        return 'undefined:rounding_split_tie', p
     p.want('target', mm.mad(y, ws), s, 'mad (mystic) after ', tag)
-    p.want('keeps_median', mm.median(y, ws), float(mm.median(xs, ws)), 'median (mystic) after ', tag)
+    p.want('keeps_median', med_y, float(mm.median(xs, ws)), 'median (mystic) after ', tag)
     return ('ok:changed' if changed(y, xs) else 'ok:identity'), p
 
 
